@@ -100,6 +100,11 @@ def _new_member(r, grish_all):
     return fam, ()
 
 
+def oc_point(arr):
+    from iOpt.trial import Point
+    return Point(arr, [])
+
+
 def _new_point(r, fam, inst):
     """(ndarray, tag, point_object_or_None)"""
     p = inst["obj"]
@@ -110,6 +115,13 @@ def _new_point(r, fam, inst):
         return None, "own_known_optimum", p.knownOptimum[0].point
     if c < 0.18:
         return np.array([r.choice((l, h)) for l, h in zip(lo, hi)], dtype=np.double), "corner", None
+    if c < 0.205:
+        # an INTEGER-typed point (list of Python ints / int64 ndarray) with integer coordinates of the box: the same point as its
+        # double version, so the same value - also when it is the first point an instance ever sees
+        q = [int(r.randint(math.ceil(l), math.floor(h))) if math.ceil(l) <= math.floor(h) else None for l, h in zip(lo, hi)]
+        if None not in q:
+            arr = np.array(q, dtype=np.int64) if r.random() < 0.5 else list(q)
+            return None, "integer_typed", oc_point(arr)
     if c < 0.24:
         # "round" coordinates (multiples of 0.05 / 0.25, integers, the centre): the places where a formula is EXACTLY zero
         # (an active constraint of StronginC3, x = 0 for XSquared / Rastrigin) - a zero result must be stored like any other
